@@ -226,7 +226,7 @@ def run(F, tier, res):
         else:
             res.violate('P3', key, 'an unsigned subtraction on the input path is not guarded by a comparison of its operands (overflow checks are on in debug builds; '
                         'in release it wraps to a huge value that is then used as a width / index)', where=s['where'])
-    res.rule('C03.P3', n3, 20, 'unsigned subtractions on the input path: discharged by pattern, hand-proved table, or reported', discharged=ok3, samples=samples[:12])
+    res.rule('C03.P3', n3, 12, 'unsigned subtractions on the input path: discharged by pattern, hand-proved table, or reported', discharged=ok3, samples=samples[:12])
     # ---------- P5: str slicing with a computed bound
     POS = ('::find', '::rfind', '::start', '::end', '::len', '::min', '::floor_char_boundary', '::ceil_char_boundary', '::char_indices', '::match_indices',
            '::position', '::saturating_sub', '::next', '::width', '::unwrap_or', '::checked_sub', '::range', '::ansi_preserving_index', '::offset')
@@ -545,7 +545,7 @@ def run(F, tier, res):
             else:
                 res.violate('NONEMPTY', 'fn=%s;callee=%s' % (p, q.split('::')[-1]), 'the coordinate slice passed to %s is neither the list of a ParsedHunkHeader nor a literal array: '
                             'it may be empty, and is indexed at [0] / [len() - 1]' % q.split('::')[-1], where=F.span_of_call(c))
-    res.rule('C03.NONEMPTY', nn, 5, 'constructors of ParsedHunkHeader (non-emptiness test dominates) and call sites of the two consumers that index the coordinate list', discharged=okn)
+    res.rule('C03.NONEMPTY', nn, 3, 'constructors of ParsedHunkHeader (non-emptiness test dominates) and call sites of the two consumers that index the coordinate list', discharged=okn)
     # ---------- P4
     from . import _e1common as E
     from .. import extract
